@@ -69,6 +69,9 @@ type UEParams struct {
 	// 3 repeated well-formed decoy PDU address IEs (29 05 01 a.b.c.d).
 	Fill     int `json:"fill,omitempty"`
 	CauseVal int `json:"cause_val,omitempty"` // 5GSM cause value when the cause IE is present (default #50)
+	// EstReject, if not 0, makes the SMF answer this UE's PDU SESSION ESTABLISHMENT REQUEST with a
+	// PDU SESSION ESTABLISHMENT REJECT carrying this 5GSM cause: the UE never has a session.
+	EstReject int `json:"est_reject,omitempty"`
 }
 
 // Cred is one subscriber's authentication data as it would be configured (hex strings; OPC may be
